@@ -262,6 +262,7 @@ class RawMeshData:
             nf = len(f)
             for i in range(nf):
                 edge = utils.keyify(f[i], f[(i+1)%nf])
+                if edge[0]==edge[1]: continue # side of a degenerate face: not a valid edge
                 if edge not in edge_set:
                     edge_set.add(edge)
                     self.edges.append(edge)
